@@ -1345,8 +1345,18 @@ class Signature:
                     had_error = True
             elif self.evaluator is not None:
                 varmap = {
-                    param: composite.value
-                    for param, (_, composite) in bound_args.items()
+                    # an omitted parameter whose default is `...` has the type of
+                    # its annotation (docs/type_evaluation.md)
+                    param: (
+                        self.parameters[param].annotation.substitute_typevars(
+                            typevar_values
+                        )
+                        if position is DEFAULT
+                        and composite.value == KnownValue(...)
+                        and param in self.parameters
+                        else composite.value
+                    )
+                    for param, (position, composite) in bound_args.items()
                 }
                 positions = {
                     param: position for param, (position, _) in bound_args.items()
